@@ -1,5 +1,6 @@
 """C02 - load accepts exactly what the documented pipeline admits (structural admission clauses only)."""
 from . import shared as S
+from . import roundtrip as R
 
 META = {
     'level': 'other',
@@ -28,3 +29,5 @@ def run(ctx):
     S.r02_4_keys(ctx)
     S.r02_5_kinds(ctx)
     S.r02_6_extraneous(ctx)
+    S.r04_7_strip_before_construct(ctx, 'R02.7')
+    R.r05_3_pairs(ctx, 'R02.8')
